@@ -80,6 +80,16 @@ check('C06',
       'Internal-fault classification by exception type and raising frame (see evidence assumptions); script-level run-time errors are counted, not judged.',
       'DESIGN.md C06')
 
+check('C16',
+      'bounded-exhaustive enumeration of re-layouts of token sequences, bracket/brace variants, identifiers and string contents through the real lexer+parser (listing equality, behavioural equality)',
+      'For every corpus/generated subject: all whole-program layouts, every single-gap deviation, gap pairs for a seed-rotated subset, every '
+      'abbreviation subset must compile to the identical instruction list; every single call-bracket flip and every single braced value (listing '
+      'equal after the PUSH/POP==MOVE rewrite, traces equal when run); every identifier of length <=2 (thorough 3 over 12 chars), every case '
+      'variant of every reserved word, the lexer-internal class names, in 5 roles and case-twin distinctness; every Latin-1 character in 4 string '
+      'positions x 3 forms and all pairs of lexically loaded characters.',
+      'Token texts of corpus programs come from an independent regex splitter; `not`, `breakpoint`, built-in names outside the identifier alphabet; one open known finding (backslash before closing quote).',
+      'DESIGN.md C16')
+
 NOT_YET = 'check not built yet in this session (design in DESIGN.md); will be claimed when its command exists'
 
 
